@@ -15,6 +15,7 @@ import (
 	"sync"
 	"time"
 
+	"github.com/ProtonMail/gluon/imap"
 	"github.com/ProtonMail/gluon/internal/verifhook"
 	"github.com/ProtonMail/gluon/limits"
 	"github.com/ProtonMail/gluon/verif/pkg/ev"
@@ -24,10 +25,11 @@ import (
 )
 
 type step struct {
-	Act    string `json:"act"`
-	S      string `json:"s"`
-	Status string `json:"status"`
-	Count  int    `json:"count"`
+	Act     string `json:"act"`
+	S       string `json:"s"`
+	Status  string `json:"status"`
+	Count   int    `json:"count"`
+	UIDNext int    `json:"uidnext"`
 }
 
 type trace struct {
@@ -93,9 +95,11 @@ type cfgT struct {
 	sessions []string
 	max      int
 	start    int
+	maxUID   int // 0 = no UID limit
 }
 
 var reCount = regexp.MustCompile(`MESSAGES (\d+)`)
+var reNext = regexp.MustCompile(`UIDNEXT (\d+)`)
 
 func lit(tag string) []byte {
 	return []byte("From: v@verif.test\r\nDate: Mon, 7 Feb 1994 21:52:25 -0800\r\nSubject: " + tag + "\r\n\r\nbody " + tag + "\r\n")
@@ -120,6 +124,7 @@ func Run(r *ev.Run, tier string) {
 	cfgs := []cfgT{
 		{file: "GluonAppendRace.all2.cfg", sessions: []string{"s1", "s2"}, max: 2, start: 0},
 		{file: "GluonAppendRace.all3.cfg", sessions: []string{"s1", "s2", "s3"}, max: 2, start: 1},
+		{file: "GluonAppendRace.allx.cfg", sessions: []string{"s1", "s2"}, max: 2, start: 1, maxUID: 3},
 	}
 	rnd := rand.New(rand.NewSource(ev.Seed()*7919 + 11))
 	for _, c := range cfgs {
@@ -139,7 +144,7 @@ func Run(r *ev.Run, tier string) {
 		r.Add("states", res.Distinct)
 		r.Add("transitions", res.Generated)
 		r.Add("interleavings_enumerated", int64(len(traces)))
-		if tier != "thorough" && len(traces) > 250 {
+		if tier != "thorough" && len(traces) > 450 {
 			rnd.Shuffle(len(traces), func(i, j int) { traces[i], traces[j] = traces[j], traces[i] })
 			traces = traces[:250]
 		}
@@ -156,6 +161,9 @@ func ReplayFile(r *ev.Run, raw json.RawMessage) bool {
 		return false
 	}
 	c := cfgT{file: t.Cfg, sessions: []string{"s1", "s2", "s3"}, max: 2, start: 1}
+	if strings.Contains(t.Cfg, "allx") {
+		c = cfgT{file: t.Cfg, sessions: []string{"s1", "s2"}, max: 2, start: 1, maxUID: 3}
+	}
 	if strings.Contains(t.Cfg, "all2") {
 		c = cfgT{file: t.Cfg, sessions: []string{"s1", "s2"}, max: 2, start: 0}
 	}
@@ -170,7 +178,11 @@ func replayAll(r *ev.Run, c cfgT, traces []*trace) bool {
 		Event:    g.event,
 	})
 	defer verifhook.Install(verifhook.Callbacks{})
-	l := limits.NewIMAPLimits(1000000, uint32(c.max), 1<<30, 1<<30)
+	maxUID := uint32(1 << 30)
+	if c.maxUID > 0 {
+		maxUID = uint32(c.maxUID)
+	}
+	l := limits.NewIMAPLimits(1000000, uint32(c.max), imap.UID(maxUID), 1<<30)
 	conn := fixture.NewVConn(map[string]string{"user": "pass"})
 	srv, err := fixture.StartServer(fixture.Config{Limits: &l, Users: []fixture.User{{Name: "user", Pass: "pass", Conn: conn}}})
 	if err != nil {
@@ -268,6 +280,18 @@ func replayAll(r *ev.Run, c cfgT, traces []*trace) bool {
 					r.Machinery("appendrace: APPEND of %s neither reached the hook nor completed within 30 s\n  %s", st.S, strings.Join(log, "\n  "))
 					return false
 				}
+			case "Expunge":
+				// the extra party removes the first message: one write transaction
+				x := cl["aux"]
+				r1 := x.Cmd("SELECT " + box)
+				r2 := x.Cmd(`STORE 1 +FLAGS.SILENT (\Deleted)`)
+				r3 := x.Cmd("EXPUNGE")
+				r4 := x.Cmd("UNSELECT")
+				logf("[x] SELECT, STORE 1 +FLAGS.SILENT (\\Deleted), EXPUNGE, UNSELECT -> %s %s %s %s", r1.Status, r2.Status, r3.Status, r4.Status)
+				if r1.Status != "OK" || r2.Status != "OK" || r3.Status != "OK" {
+					r.Machinery("appendrace: the removal by the extra party failed: %s %s / %s %s / %s %s\n  %s", r1.Status, r1.Text, r2.Status, r2.Text, r3.Status, r3.Text, strings.Join(log, "\n  "))
+					return false
+				}
 			case "Commit":
 				f := fl[st.S]
 				close(f.free)
@@ -298,15 +322,23 @@ func replayAll(r *ev.Run, c cfgT, traces []*trace) bool {
 				}
 			}
 		}
-		res := cl["aux"].Cmd("STATUS " + box + " (MESSAGES)")
-		cnt := -1
+		res := cl["aux"].Cmd("STATUS " + box + " (MESSAGES UIDNEXT)")
+		cnt, next := -1, -1
 		for _, l := range res.Untagged {
 			if m := reCount.FindStringSubmatch(l.Text); m != nil {
 				cnt, _ = strconv.Atoi(m[1])
 			}
+			if m := reNext.FindStringSubmatch(l.Text); m != nil {
+				next, _ = strconv.Atoi(m[1])
+			}
 		}
-		logf("STATUS %s -> %d messages", box, cnt)
+		logf("STATUS %s -> %d messages, UIDNEXT %d", box, cnt, next)
 		want := t.Steps[len(t.Steps)-1].Count
+		if wantNext := t.Steps[len(t.Steps)-1].UIDNext; c.maxUID > 0 && next > c.maxUID {
+			fail("race/uid-exceeds-limit", fmt.Sprintf("the mailbox announces UIDNEXT %d: a UID of %d or more was handed out, the configured limit allows UIDs below %d", next, c.maxUID, c.maxUID))
+		} else if ok && wantNext > 0 && next != wantNext {
+			fail("race/uidnext-differs", fmt.Sprintf("the mailbox announces UIDNEXT %d, the specification says %d", next, wantNext))
+		}
 		if cnt > c.max {
 			fail("race/count-exceeds-limit", fmt.Sprintf("the mailbox holds %d messages, the configured maximum is %d", cnt, c.max))
 		} else if ok && cnt != want {
